@@ -1,7 +1,9 @@
 package c02oracle
 
 import (
+	"encoding/json"
 	"fmt"
+	"math/big"
 	"strings"
 )
 
@@ -80,6 +82,10 @@ func wrapSeq(s seq, inputCanon string) seq {
 	return seq{outs: []string{"[" + strings.Join(parts, ",") + "]"}}
 }
 
+// StringIndexKey is the stable, space-free key of the class "path(p) walks into a string by a number or a
+// slice, getpath rejects the string" (listed in known-findings.txt under C02).
+const StringIndexKey = "path-through-string-index"
+
 // evalCase runs one case and returns the violations it found.
 func (e *executor) evalCase(c *tcase) (vs []violation, st evalStats) {
 	inCanon := canonG(c.Input)
@@ -92,12 +98,11 @@ func (e *executor) evalCase(c *tcase) (vs []violation, st evalStats) {
 		return
 	}
 	st.errored = op.err
-	if c.Ref == "pathget" && c.Fam != "probe" && e.throughString(c) {
-		// `.[i]` / `.[i:j]` work on strings and path() records them, but getpath rejects a string:
-		// a genuine deviation, reported once with a stable key by the fixed probe (sys.go), not per random case
-		st.skipped = "string-index-class"
-		return
-	}
+	// `.[i]` / `.[i:j]` work on strings and path() records them, but getpath rejects a string: a genuine
+	// deviation (gojq's string indexing is an extension that getpath does not follow). The whole class —
+	// some prefix of an emitted path reaches a STRING and the next path element is a number or a slice
+	// object — is reported under ONE stable key; every other path/getpath mismatch keeps its per-case key.
+	strClass := c.Ref == "pathget" && e.throughString(c)
 	if !op.err {
 		if c.Wrap {
 			st.nontrivial = len(op.outs) != 1 || op.outs[0] != "["+inCanon+","+inCanon+"]"
@@ -117,9 +122,16 @@ func (e *executor) evalCase(c *tcase) (vs []violation, st evalStats) {
 		case "random":
 			prio = 2
 		}
+		key := "update-differs:" + c.Op + ":" + c.Prog + ":" + inCanon
+		if strClass {
+			key = StringIndexKey
+			if c.Fam != "probe" {
+				prio = 3 // the fixed probe is the representative replay of the class
+			}
+		}
 		vs = append(vs, violation{
 			Prio: prio,
-			Key:  "update-differs:" + c.Op + ":" + c.Prog + ":" + inCanon,
+			Key:  key,
 			What: oneLine(fmt.Sprintf("operator gives %s, defining reduction gives %s", op.String(), exp.String())),
 			Replay: map[string]any{
 				"program":          c.Prog,
@@ -231,7 +243,10 @@ func (e *executor) throughString(c *tcase) bool {
 				break
 			}
 			if _, isStr := x.(string); isStr {
-				return true
+				switch path[i].(type) {
+				case int, float64, *big.Int, json.Number, map[string]any:
+					return true
+				}
 			}
 		}
 	}
